@@ -132,18 +132,27 @@ class Run:
                 impl_exes[eng.exe] = exe
                 if not getattr(eng, "model_free", False):
                     models[eng.exe] = C.build_model(eng.exe)
-        for eng in engines:
+        def one(eng):
             corpus = list(eng.corpus()) + list(getattr(eng, "_extra_corpus", []))
             n = eng.n_cases(self.tier)
             cases = list(corpus)
             for i in range(n):
                 cases.append(eng.gen(C.Rng(self.seed, eng.name, i), self.tier))
             t1 = time.time()
-            impl = C.run_lines(impl_exes[eng.exe], cases, shards=16, per_shard=getattr(eng, 'per_shard', 50))
+            impl = C.run_lines(impl_exes[eng.exe], cases, shards=shards, per_shard=getattr(eng, 'per_shard', 50))
             t2 = time.time()
             mod = impl if getattr(eng, "model_free", False) else \
-                C.run_lines(models[eng.exe], [eng.model_input(c, a) for c, a in zip(cases, impl)], shards=16)
+                C.run_lines(models[eng.exe], [eng.model_input(c, a) for c, a in zip(cases, impl)], shards=shards)
             t3 = time.time()
+            return eng, corpus, cases, impl, mod, t2 - t1, t3 - t2
+
+        # engines run concurrently (each one shards its cases over a few processes)
+        from concurrent.futures import ThreadPoolExecutor
+        workers = 4 if len(engines) > 1 else 1
+        shards = 16 if workers == 1 else 6
+        with ThreadPoolExecutor(max_workers=workers) as ex:
+            results = list(ex.map(one, engines))
+        for eng, corpus, cases, impl, mod, t_impl, t_mod in results:
             shapes = set()
             hist = {}
             mon_hits = []
@@ -164,7 +173,7 @@ class Run:
             self.cov["distinct_nontrivial"] += len(shapes)
             self.cov["engines"][eng.name] = {
                 "cases": len(cases), "corpus": len(corpus), "mismatches": nmis, "monitor_hits": len(mon_hits),
-                "op_histogram": hist, "impl_s": round(t2 - t1, 2), "model_s": round(t3 - t2, 2),
+                "op_histogram": hist, "impl_s": round(t_impl, 2), "model_s": round(t_mod, 2),
                 "case_len_max": max(len(eng.split(c)[1]) for c in cases) if cases else 0}
             for c, a in list(zip(cases, impl))[len(corpus):len(corpus) + 2]:
                 self.cov["samples"].append({"engine": eng.name, "case": c, "impl_and_model_output": a})
